@@ -357,3 +357,21 @@ def facts_through_helpers(ctx, ev, entry, res):
             if passed:
                 fs |= set(ok_facts_deep(ctx, ev, c))
     return fs
+
+
+def prefix_fits_fact(fs):
+    """the facts contain `layout prefix <= some capacity`: the unified prefix alignUp(align_of H, reserved) + align_of H + size_of H, or the plain one
+    reserved + 1, on the small side of a <= / >= comparison (how check_capacity decides, wherever the comparison was made)"""
+    A, S = ("align_of", "H"), ("size_of", "H")
+    for f in fs:
+        if f[0] != "cmp" or f[1] not in ("Le", "Ge"):
+            continue
+        small, big = (f[2], f[3]) if f[1] == "Le" else (f[3], f[2])
+        sb = show(big)
+        if not isinstance(small, Lin) or "allocated" in sb or not ("len(" in sb or "cap" in sb):
+            continue        # the large side must be a capacity: the length of the mapping / the vector, not e.g. the stored cursor
+        uni = any(tag(a) == "alignUp" for a in small.m) and small.m.get(A) == 1 and small.m.get(S) == 1
+        plain = small.c == 1 and len(small.m) == 1 and "reserved" in show(list(small.m)[0]) and list(small.m.values())[0] == 1
+        if uni or plain:
+            return True
+    return False
